@@ -45,6 +45,11 @@ class PathUndecided(BaseException):
     counted; the check can then not exit 0."""
 
 
+class OutOfScope(BaseException):
+    """The path left the scope of the property under check (e.g. the account was ruined
+    in a harness that is not about ruin).  Counted, not an error."""
+
+
 class Unsupported(BaseException):
     """The code under test applied an operation to a proxy that is not modelled."""
 
@@ -153,7 +158,7 @@ class SymBool:
         return 7
 
     def __repr__(self):
-        return "SymBool(%s)" % (self.e,)
+        return "SymBool(#%d)" % self.e.get_id()
 
 
 def s_not(b):
@@ -375,8 +380,9 @@ class SymReal:
         return bool(self != 0)
 
     def __repr__(self):
-        s = str(self.e)
-        return "SymReal(%s)" % (s if len(s) < 120 else s[:117] + "...")
+        # cheap on purpose: the repo formats values into exception messages, and z3's
+        # pretty printer takes seconds on large terms
+        return "SymReal(#%d)" % self.e.get_id()
 
     def __format__(self, spec):
         return repr(self)
@@ -553,6 +559,7 @@ class Ctx:
         self.functions = set()
         self.trace_functions = trace_functions
         self.aborted = None
+        self.scale = []                             # magnitudes the outputs were computed from
 
     # ----------------------------------------------------------------- variables
     def _declare(self, name, kind):
@@ -637,22 +644,32 @@ class Ctx:
 
     # ----------------------------------------------------------------- solving
     def _solve(self, conj, extra, names, nl, want_model=True, timeout_ms=None):
-        """-> ('sat', {name: value}) | ('unsat', None) | ('unknown', None)."""
+        """-> ('sat', {name: value}) | ('unsat', None) | ('unknown', None).
+
+        Portfolio per slice.  Linear (incl. ToInt / Int) slices: z3's default solver.
+        Polynomial real slices: (1) simplify > purify-arith > solve-eqs > nlsat, which
+        decides in milliseconds the sign-of-a-quotient queries that cost QF_NRA's default
+        strategy 14 s each; (2) SolverFor(QF_NRA); (3) the default solver.  A first round
+        with a short timeout, a second with the full one."""
         nl = nl or any(c.nl for c in conj)
         kinds = {self.var_kind[n] for n in names}
+        full = int(timeout_ms or self.timeout_ms)
         if not nl:
-            tactics = ["default"]
+            plan = [("default", full)]
         elif kinds <= {"real"}:
-            tactics = ["nra", "default"]
+            short = min(2500, full)
+            plan = [("pnra", short), ("nra", short), ("default", short),
+                    ("pnra", full), ("nra", full), ("default", full)]
         else:
-            tactics = ["default"]
-        res = "unknown"
-        for i, tac in enumerate(tactics):
+            plan = [("default", full)]
+        for tac, tmo in plan:
             if tac == "nra":
                 s = z3.SolverFor("QF_NRA")
+            elif tac == "pnra":
+                s = z3.Then("simplify", "purify-arith", "solve-eqs", "qfnra-nlsat").solver()
             else:
                 s = z3.Solver()
-            s.set("timeout", int(timeout_ms or self.timeout_ms))
+            s.set("timeout", tmo)
             for c in conj:
                 s.add(c.e)
             for e in extra:
@@ -669,17 +686,17 @@ class Ctx:
                 self.stats.sat += 1
                 if not want_model:
                     return "sat", None
-                m = s.model()
-                out = {}
-                for n in names:
-                    v = m.eval(self.vars[n], model_completion=True)
-                    out[n] = v
+                try:
+                    m = s.model()
+                    out = {}
+                    for n in names:
+                        out[n] = m.eval(self.vars[n], model_completion=True)
+                except z3.Z3Exception:
+                    continue
                 return "sat", out
             if r == z3.unsat:
                 self.stats.unsat += 1
                 return "unsat", None
-            if not nl:
-                break          # a linear slice: a second tactic does not help
         self.stats.unknown += 1
         return "unknown", None
 
@@ -955,7 +972,7 @@ class Ctx:
             self.obligations.append({"name": name, "status": "dup"})
             return True
         if self.mode == "conc" or not (isinstance(a, SymReal) or isinstance(b, SymReal)):
-            ok = _close(a, b, tol, scale)
+            ok = _close(a, b, tol, tuple(scale) + tuple(x for x in self.scale if not isinstance(x, SymReal)))
             ob = {"name": name, "status": "ok" if ok else "violated"}
             if not ok:
                 ob["info"] = {"lhs": _plain(a), "rhs": _plain(b), "extra": _plain(info)}
@@ -968,7 +985,7 @@ class Ctx:
         if ok is False:
             ob = self.obligations[-1]
             try:
-                self._refine_cex(ob, a, b, scale, info)
+                self._refine_cex(ob, a, b, tuple(scale) + tuple(self.scale), info)
             except BaseException:
                 pass
         return ok
@@ -1008,6 +1025,15 @@ class Ctx:
     def _export_model_lossy(self, model=None):
         model = self.model if model is None else model
         return {n: _val_to_str(v) for n, v in model.items()}
+
+    def scale_hint(self, *xs):
+        """Magnitudes (cash, gross position values ...) from which the checked outputs are
+        computed: float comparisons in concrete mode are relative to the largest of them
+        (cancellation), and refined counterexamples violate by a margin relative to them."""
+        self.scale.extend(xs)
+
+    def out_of_scope(self, why):
+        raise OutOfScope(why)
 
     def reached(self, name):
         """Reachability witness: records that a path with a satisfiable path condition
@@ -1109,18 +1135,29 @@ class Ctx:
         self.logs.append((x, r))
         return r
 
+    TRUNC_BOUND = 3
+
     def trunc(self, x: SymReal):
-        """int(x): truncation toward zero, as a SymReal holding an integral value."""
-        name_stem = "trunc"
-        self.fresh_n += 1
-        name = "%s!%d" % (name_stem, self.fresh_n)
-        k = self._declare(name, "int")
-        kr = SymReal(z3.ToReal(k), frozenset([name]), False)
+        """int(x): truncation toward zero.  Forks over the integer result within
+        [-TRUNC_BOUND, TRUNC_BOUND] and returns a python int, exactly as int() would;
+        larger magnitudes are assumed away (a stated bound).  Keeps every path in real
+        arithmetic (no Int/Real mixing)."""
+        B = self.TRUNC_BOUND
+        self.assume(s_and(x > -(B + 1), x < B + 1), "trunc-bound")
         if x >= 0:
-            self.assume(s_and(kr <= x, x < kr + 1), "trunc")
+            for k in range(0, B + 1):
+                if x < k + 1:
+                    return k
         else:
-            self.assume(s_and(kr >= x, x > kr - 1), "trunc")
-        return kr
+            for k in range(0, -(B + 1), -1):
+                if x > k - 1:
+                    return k
+        raise HarnessError("trunc: unreachable")
+
+
+class FloatTie(BaseException):
+    """Concrete mode only: the float run sits on a branch boundary (e.g. int() of a value
+    within rounding distance of an integer); the comparison with the symbolic path is void."""
 
 
 def _eq(a, b):
@@ -1204,6 +1241,10 @@ def run_path(harness, config, prefix=None, prefix_model=None, mode="sym", values
         c.aborted = "undecided:%s" % (ex,)
     except Unsupported as ex:
         c.aborted = "unsupported:%s" % (ex,)
+    except OutOfScope as ex:
+        c.aborted = "out-of-scope:%s" % (ex,)
+    except FloatTie as ex:
+        c.aborted = "tie:%s" % (ex,)
     except Exception as ex:  # an exception the harness did not expect: an obligation
         import traceback
         tb = traceback.format_exc(limit=-6)
